@@ -10,7 +10,7 @@
     Concurrent cache: the corresponding statements are decided by the lock-step correspondence,
     the no-loss oracle and the refill probe; the accounting theorem they rest on (no ghost
     entries, counters = physical after maintenance) is Sync/SInvTop.v. *)
-From MM Require Import Contract.Trace Contract.UnsyncTrace Unsync.UInvDefs Unsync.UInv Unsync.UPolicyDefs Unsync.UPolicy.
+From MM Require Import Contract.Trace Contract.UnsyncTrace Contract.SyncComplete Unsync.UInvDefs Unsync.UInv Unsync.UPolicyDefs Unsync.UPolicy Sync.SInvDefs Sync.SPolicyDefs Sync.SPolicy.
 
 Theorem C03_unsync_unbounded_is_map_with_expiry : forall c ops, cfg_ok c -> uc_cap c = None ->
   N.of_nat (length ops) < 2 ^ 24 -> u_trace_complete c ∅ urun_init ops.
@@ -59,6 +59,51 @@ Theorem C03_unsync_update_evicts_nothing : forall c s now k v s1 ts s' e,
   u_ws s' + ue_weight e = u_ws s1 + weigh c k v.
 Proof. exact u_insert_update. Qed.
 
+(** concurrent cache (sequential regime, any placement of sync(), both housekeeping regimes): with no
+    max_capacity every entry that is live under the WEAK reference — in which a successful get does
+    not extend the idle timer, because on the concurrent cache that extension is only guaranteed
+    once pending maintenance has applied it — is returned by get / contains_key / iteration with
+    its latest value: nothing is dropped for any other reason *)
+Theorem C03_sync_unbounded_is_map_with_expiry : forall c ops, scfg_ok c -> sc_cap c = None ->
+  N.of_nat (length ops) < 2 ^ 18 -> s_trace_complete c ∅ srun_init ops.
+Proof. exact s_trace_complete_all. Qed.
+
+(** a maintenance run on a state with nothing queued removes a map entry only if it is expired
+    (ttl, tti or valid_after, on its own timestamps) or the cache is over capacity *)
+Theorem C03_sync_maintenance_removal_causes : forall c s now s' k ve,
+  scfg_ok c -> SInv c s -> s_small s -> quiescent s -> s_sync c s now = Ok s' ->
+  s_map s !! k = Some ve -> s_map s' !! k = None ->
+  info_expired c s (get_info s (ve_info s ve)) now = true \/
+  (exists cap, sc_cap c = Some cap /\ cap < s_ws s).
+Proof. exact s_sync_removal_causes. Qed.
+(** a pending fresh insert that fits is admitted by the next maintenance run and evicts nothing (first branches) *)
+Theorem C03_sync_fitting_insert_admitted_evicts_nothing : forall c s k ve w s',
+  scfg_ok c -> SInv c s -> s_small s -> pending_insert c s k ve w ->
+  apply_writes c s 1 = Ok s' ->
+  SInv c s' /\ quiescent s' /\
+  match sc_cap c with
+  | None =>
+      s_view s' = s_view s /\ s_lru_keys s' = s_lru_keys s ++ [k] /\ s_ws s' = s_ws s + w
+  | Some cap =>
+    if s_ws s + w <=? cap then
+      s_view s' = s_view s /\ s_lru_keys s' = s_lru_keys s ++ [k] /\ s_ws s' = s_ws s + w
+    else if cap <? w then
+      s_view s' = delete k (s_view s) /\ s_prob s' = s_prob s /\ s_wo s' = s_wo s /\ s_ws s' = s_ws s
+    else match tinylfu_victims (s_lru_triples s) w (frequency (s_sk s) (sc_hash c k)) with
+         | Some p =>
+             s_view s' = delete_keys (p.*1.*1) (s_view s) /\
+             s_lru_keys s' = drop (length p) (s_lru_keys s) ++ [k] /\
+             p.*1.*1 = take (length p) (s_lru_keys s) /\
+             s_ws s' + sum_w p = s_ws s + w
+         | None =>
+             s_view s' = delete k (s_view s) /\ s_prob s' = s_prob s /\ s_wo s' = s_wo s /\ s_ws s' = s_ws s
+         end
+  end.
+Proof. exact s_pending_insert_outcome. Qed.
+
+Print Assumptions C03_sync_maintenance_removal_causes.
+Print Assumptions C03_sync_fitting_insert_admitted_evicts_nothing.
+Print Assumptions C03_sync_unbounded_is_map_with_expiry.
 Print Assumptions C03_unsync_unbounded_is_map_with_expiry.
 Print Assumptions C03_unsync_fitting_insert_admitted_evicts_nothing.
 Print Assumptions C03_unsync_maintenance_removal_causes.
